@@ -357,6 +357,7 @@ class DataLinkConnection(TransmissionControlObject):
     ESTABLISHED   RNR-PDU     ESTABLISHED
     ESTABLISHED   FRMR-PDU    SHUTDOWN
     ESTABLISHED   DISC-PDU    CLOSE_WAIT
+    ESTABLISHED   DM-PDU      CLOSE_WAIT
     ESTABLISHED   close()     SHUTDOWN
     CLOSE_WAIT    close()     SHUTDOWN
     ============= =========== ============
@@ -674,6 +675,20 @@ class DataLinkConnection(TransmissionControlObject):
                 self.send_queue.clear()
                 self.send_queue.append(pdu.DisconnectedMode(
                     self.peer, self.addr, reason=0))
+            return
+
+        if rcvd_pdu.name == "DM":
+            # the remote LLC has no (longer a) data link connection for
+            # this address pair: nothing will be acknowledged or received
+            with self.lock:
+                self.state.CLOSE_WAIT = True
+                self.send_queue.clear()
+                self.recv_queue.append(pdu.Disconnect(
+                    dsap=self.peer, ssap=self.addr))
+                self.recv_ready.notify()
+                self.send_ready.notify_all()
+                self.send_token.notify_all()
+                self.acks_ready.notify_all()
             return
 
         if rcvd_pdu.name in ("I", "RR", "RNR"):
